@@ -33,7 +33,7 @@ CA = S.ca("q", 2, 2, "last")
 
 BASES = {
     "cat3_x_cat2": (S.schema2("cat3_x_cat2", A3, B2, weighted=True), 2, 3),
-    "cat2_x_cat3": (S.schema2("cat2_x_cat3", B2, A3, weighted=True), 2, 3),
+    "cat2_x_cat3": (S.schema2("cat2_x_cat3", B2, A3, weighted=True), 1, 2),
     "cat3_x_mr": (S.schema2("cat3_x_mr", A3, M2, weighted=True), 1, 2),
     "mr_x_cat3": (S.schema2("mr_x_cat3", M2, A3, weighted=True), 1, 2),
     "mr_x_mr": (S.schema2("mr_x_mr", M2, N2, weighted=True), 1, 2),
